@@ -10,3 +10,9 @@ package tss
 //@ func VerifyOwnPubKeySignature
 //@ trusted
 //@ ensures err == nil <==> validOwnPubKeySig(mid, dkgContext, signature, ownPub)
+
+// Complaint verification (DLEQ proof + decrypt-and-compare against the dealer's commitments): abstracted.
+//@ spec validComplaint(pubI Point, pubJ Point, keySym Point, sig ComplaintSignature, enc EncSecretShare, midI Int, commits Points) Bool uninterpreted
+//@ func VerifyComplaint
+//@ trusted
+//@ ensures err == nil <==> validComplaint(oneTimePubI, oneTimePubJ, keySym, complaintSignature, encSecretShare, midI, commits)
